@@ -26,14 +26,14 @@ func propSpecs() map[string]*PropSpec {
 		{
 			ID: "C01", Sub: "spg", Level: "model_checking",
 			Harnesses: []HSpec{
-				{Name: "H01", Int: true, Quick: P{"unwind:randomUint32n": 14, "unwind_expected": 1}, Thorough: P{"unwind:randomUint32n": 66, "unwind_expected": 1}, Reach: []string{"returned", "after-rejection"}},
+				{Name: "H01", Int: true, Quick: P{"unwind:randomUint32n": 66, "unwind_expected": 1}, Thorough: P{"unwind:randomUint32n": 258, "unwind_expected": 1}, Reach: []string{"returned", "after-rejection"}},
 				{Name: "H01L", Int: true, Reach: []string{"lemmas"}},
 				{Name: "H01P", Reach: []string{"returned"}},
 				{Name: "H01Z", Reach: []string{"panicked"}},
 				{Name: "H01G", Reach: []string{"guard"}},
 			},
 			Bounds: map[string]string{
-				"H01":     "n: every 32-bit value >= 1 that is not a power of two (symbolic); raw words: every value (4 symbolic source bytes each); rejections: every stream with up to K consecutive rejected words, K = 12 quick / 64 thorough (one path per rejection count, the loop is unrolled; longer rejection runs are outside the executed bound)",
+				"H01":     "n: every 32-bit value >= 1 that is not a power of two (symbolic); raw words: every value (4 symbolic source bytes each); rejections: every stream with up to K consecutive rejected words, K = 64 quick / 256 thorough (one path per rejection count, the loop is unrolled; longer rejection runs are outside the executed bound)",
 				"H01L":    "n, T, q, rho, u symbolic over their full ranges (integer encoding, QF_NIA)",
 				"H01P":    "the 32 power-of-two bounds, concrete; raw word symbolic",
 				"outside": "more than K consecutive rejections (probability < 2^-K); quality of the OS source (source bytes are assumed independent and uniform)",
@@ -68,6 +68,9 @@ func propSpecs() map[string]*PropSpec {
 			Harnesses: []HSpec{
 				{Name: "H04", Quick: P{"L": 2}, Thorough: P{"L": 4}, Reach: []string{"returned", "structure", "capitalised"}},
 				{Name: "H04", Label: "long", Quick: P{"Lmin": 64, "L": 66, "lists": 2, "schemes": 5, "seps": 2}, Thorough: P{"Lmin": 63, "L": 70, "lists": 2, "schemes": 5, "seps": 2}, Reach: []string{"returned", "structure", "capitalised"}},
+				{Name: "H04", Label: "after-capitalising-call", Quick: P{"L": 2, "lists": 4, "seps": 3, "prime": 1}, Thorough: P{"L": 3, "lists": 6, "seps": 5, "prime": 1}, Reach: []string{"returned", "structure", "primed"}},
+				{Name: "H01", Label: "kernel-contract", Int: true, Quick: P{"unwind:randomUint32n": 5, "unwind_expected": 1}, Thorough: P{"unwind:randomUint32n": 10, "unwind_expected": 1}, Reach: []string{"returned", "after-rejection"}},
+				{Name: "H01P", Label: "kernel-contract", Reach: []string{"returned"}},
 			},
 			Bounds: h04Bounds,
 			Assume: append([]string{"bounded draws are summarised by the kernel contract verified by C01"}, commonAssume...),
@@ -77,6 +80,9 @@ func propSpecs() map[string]*PropSpec {
 			Harnesses: []HSpec{
 				{Name: "H04", Quick: P{"L": 2}, Thorough: P{"L": 4}, Reach: []string{"returned", "structure", "capitalised"}},
 				{Name: "H04", Label: "long", Quick: P{"Lmin": 64, "L": 66, "lists": 2, "schemes": 5, "seps": 2}, Thorough: P{"Lmin": 63, "L": 70, "lists": 2, "schemes": 5, "seps": 2}, Reach: []string{"returned", "structure", "capitalised"}},
+				{Name: "H04", Label: "after-capitalising-call", Quick: P{"L": 2, "lists": 4, "seps": 3, "prime": 1}, Thorough: P{"L": 3, "lists": 6, "seps": 5, "prime": 1}, Reach: []string{"returned", "structure", "primed"}},
+				{Name: "H01", Label: "kernel-contract", Int: true, Quick: P{"unwind:randomUint32n": 5, "unwind_expected": 1}, Thorough: P{"unwind:randomUint32n": 10, "unwind_expected": 1}, Reach: []string{"returned", "after-rejection"}},
+				{Name: "H01P", Label: "kernel-contract", Reach: []string{"returned"}},
 			},
 			Bounds: h04Bounds,
 			Assume: append([]string{"bounded draws are summarised by the kernel contract verified by C01"}, commonAssume...),
@@ -86,6 +92,7 @@ func propSpecs() map[string]*PropSpec {
 			Harnesses: []HSpec{
 				{Name: "H06w", Quick: P{"L": 2}, Thorough: P{"L": 3}, Reach: []string{"compared"}},
 				{Name: "H06c", Quick: P{"allowmask": 12, "requiremask": 4, "excludemask": 16, "strings": 3, "reqsets": 8, "L": 2}, Thorough: P{"allowmask": 14, "requiremask": 12, "excludemask": 20, "strings": 5, "reqsets": 8, "L": 3}, Reach: []string{"computed", "primed"}},
+				{Name: "H06c", Label: "beyond-float64", Quick: P{"allowmask": 6, "requiremask": 4, "excludemask": 0, "strings": 1, "reqsets": 2, "L": 1, "bigL": 1, "primes": 1}, Thorough: P{"allowmask": 14, "requiremask": 12, "excludemask": 16, "strings": 2, "reqsets": 3, "L": 1, "bigL": 1, "primes": 1}, Reach: []string{"computed"}},
 				{Name: "H02", Label: "entropy-field", Quick: P{"allowmask": 4, "requiremask": 4, "excludemask": 16, "strings": 2, "reqsets": 6, "L": 2, "T": 2}, Thorough: P{"allowmask": 12, "requiremask": 4, "excludemask": 16, "strings": 3, "reqsets": 8, "L": 2, "T": 2}, Reach: []string{"accepted"}},
 				{Name: "H04", Label: "entropy-field", Quick: P{"L": 2, "lists": 7, "seps": 5}, Thorough: P{"L": 3, "lists": 10}, Reach: []string{"structure"}},
 			},
@@ -120,6 +127,7 @@ func propSpecs() map[string]*PropSpec {
 				{Name: "H13n", Reach: []string{"refused"}},
 				{Name: "H13b", Quick: P{"a": 1, "k": 2, "m": 2, "L": 2, "flags": 1}, Thorough: P{"a": 2, "k": 2, "m": 2, "L": 3, "flags": 1}, Reach: []string{"computed", "comfortably-acceptable", "clearly-unacceptable"}},
 				{Name: "H13b", Label: "class-flags", Quick: P{"a": 0, "k": 2, "m": 1, "L": 2, "flags": 3}, Thorough: P{"a": 1, "k": 2, "m": 1, "L": 3, "flags": 4}, Reach: []string{"computed", "comfortably-acceptable", "clearly-unacceptable"}},
+				{Name: "H13b", Label: "beyond-float64", Quick: P{"a": 0, "k": 1, "m": 1, "flags": 4, "bigL": 1}, Thorough: P{"a": 1, "k": 2, "m": 1, "flags": 4, "bigL": 1}, Reach: []string{"computed"}},
 				{Name: "H13b", Label: "after-sibling-call", Quick: P{"a": 0, "k": 2, "m": 2, "L": 2, "flags": 1, "primes": 5}, Thorough: P{"a": 1, "k": 2, "m": 2, "L": 3, "flags": 1, "primes": 5}, Reach: []string{"computed", "primed"}},
 				{Name: "H02", Label: "retry-budget", Quick: P{"allowmask": 4, "requiremask": 4, "excludemask": 16, "strings": 2, "reqsets": 6, "L": 2, "T": 3}, Thorough: P{"allowmask": 12, "requiremask": 12, "excludemask": 16, "strings": 3, "reqsets": 8, "L": 2, "T": 4}, Reach: []string{"exhausted", "accepted-after-retry"}},
 			},
@@ -195,6 +203,7 @@ func propSpecs() map[string]*PropSpec {
 				{Name: "H15a", Reach: []string{"called"}},
 				{Name: "H15b", Reach: []string{"evaluated"}},
 				{Name: "H15w", Reach: []string{"evaluated"}},
+				{Name: "H15s", Reach: []string{"called", "first-call-failed", "second-call-good"}},
 			},
 			Bounds: map[string]string{
 				"H15a":    "the shared values of H14; after each of nine API calls the caller's RequireSets slice, the slice passed to NewWordList, the word list and every public field are compared with their values before the call",
@@ -221,6 +230,8 @@ func propSpecs() map[string]*PropSpec {
 				{Name: "H16a", Reach: []string{"defaults"}},
 				{Name: "H16p", Reach: []string{"preset", "none"}},
 				{Name: "H16l", Reach: []string{"lists"}},
+				{Name: "H01", Label: "kernel-contract", Int: true, Quick: P{"unwind:randomUint32n": 5, "unwind_expected": 1}, Thorough: P{"unwind:randomUint32n": 10, "unwind_expected": 1}, Reach: []string{"returned", "after-rejection"}},
+				{Name: "H01P", Label: "kernel-contract", Reach: []string{"returned"}},
 			},
 			Bounds: map[string]string{
 				"H16a":    "the five class flags and the named combinations through Alphabet() of single-class recipes, NewCharRecipe / NewWLRecipe defaults (Length 1..3), MaxTrials, MaxFailRate - compared with literals typed from the documentation",
@@ -234,12 +245,12 @@ func propSpecs() map[string]*PropSpec {
 			ID: "C17", Sub: "opgen", Level: "model_checking",
 			Harnesses: []HSpec{
 				{Name: "HO17c", Quick: P{"classlists": 5, "lengths": 2}, Thorough: P{"classlists": 8, "lengths": 2}, Reach: []string{"ran", "password", "entropy", "refused"}},
-				{Name: "HO17c", Label: "default-length", Quick: P{"classlists": 2, "lengths": 3}, Thorough: P{"classlists": 4, "lengths": 3}, Reach: []string{"ran", "password"}},
+				{Name: "HO17c", Label: "default-length", Quick: P{"classlists": 2, "lengths": 4}, Thorough: P{"classlists": 4, "lengths": 4}, Reach: []string{"ran", "password"}},
 				{Name: "HO17w", Reach: []string{"ran", "password", "entropy", "unknown-list"}},
 				{Name: "HO17u", Reach: []string{"usage"}},
 			},
 			Bounds: map[string]string{
-				"HO17c":   "opgen characters with --length 1, 8 or absent (20); --allow/--require/--exclude each absent or one of the class lists (digits; uppercase,lowercase; a list with blanks after the commas; a list with an unknown word; three classes with blanks; ambiguous; a list with blanks around the commas); --entropy on/off; main() is executed from its SSA with os.Args set, package flag modelled by its documented contract; the password printed is compared with the password of the documented library recipe on the same (symbolic) random draws; in the engine MaxTrials is 2",
+				"HO17c":   "opgen characters with --length 1, 8, absent (20) or 200 (entropy only); --allow/--require/--exclude each absent or one of the class lists (digits; uppercase,lowercase; a list with blanks after the commas; a list with an unknown word; three classes with blanks; ambiguous; a list with blanks around the commas); --entropy on/off; main() is executed from its SSA with os.Args set, package flag modelled by its documented contract; the password printed is compared with the password of the documented library recipe on the same (symbolic) random draws; in the engine MaxTrials is 2",
 				"HO17w":   "opgen words with --size 1, 3 or absent (4); --file with three small files (one with a duplicate word) and a 12 000-word file kept on one line of more than 64 KiB or --list absent/words/syllables/unknown; every separator class and an unknown one; every capitalisation scheme and an unknown one; --entropy on/off; generation from the 18 328-word shipped lists with symbolic draws is skipped in the engine (entropy only)",
 				"HO17u":   "missing subcommand, unknown subcommand, unknown flag, misspelt flag, malformed integer, flag without its value",
 				"outside": "the text-level behaviour of package flag is a model written from its documentation (flag.go is not executed); the process boundary (exit status, stdout/stderr) is the engine's event log, confirmed on the built binary only for counterexamples; other flag spellings and values",
@@ -252,7 +263,7 @@ func propSpecs() map[string]*PropSpec {
 			Harnesses: []HSpec{
 				{Name: "H11a", Quick: P{"t": 3, "b": 3}, Thorough: P{"t": 3, "b": 3, "anytype": 1}, Reach: []string{"indexed", "roundtrip", "non-ascii"}},
 				{Name: "H11a", Label: "long-tokens", ThoroughOnly: true, Thorough: P{"t": 2, "b": 5, "anytype": 1}, Reach: []string{"roundtrip", "non-ascii"}},
-				{Name: "H11a", Label: "many-tokens", ThoroughOnly: true, Thorough: P{"t": 5, "b": 2}, Reach: []string{"roundtrip", "non-ascii"}},
+				{Name: "H11a", Label: "many-tokens", Quick: P{"t": 5, "b": 1}, Thorough: P{"t": 5, "b": 2}, Reach: []string{"roundtrip"}},
 				{Name: "H11b", Reach: []string{"indexed", "roundtrip", "refused"}},
 			},
 			Bounds: map[string]string{
